@@ -381,6 +381,7 @@ class SimPool(object):
         self.lost = set()
         self.log = []            # (tid, worker)
         self.worker_tasks = {}
+        self.worker_cwd = {}
         self.closed = False
 
     def apply_async(self, func, args=(), kwds=None):
@@ -433,8 +434,26 @@ class SimPool(object):
             if len(self.worker_tasks[w]) == 2:
                 self.fs.fire('pool.worker_reused')
             args, kwds = pickle.loads(t[2])
+            # process-level state a forked worker owns: its working
+            # directory (what a task leaves behind is seen by the worker's
+            # next task and never by the parent)
+            parent_cwd = _real_os.getcwd()
+            if w in self.worker_cwd:
+                try:
+                    _real_os.chdir(self.worker_cwd[w])
+                except OSError:
+                    pass
             try:
-                val = t[1](*args, **kwds)
+                try:
+                    val = t[1](*args, **kwds)
+                finally:
+                    try:
+                        self.worker_cwd[w] = _real_os.getcwd()
+                    except OSError:
+                        pass
+                    if self.worker_cwd.get(w) != parent_cwd:
+                        self.fs.fire('worker.cwd_changed')
+                    _real_os.chdir(parent_cwd)
             except SystemExit:
                 # the worker process dies; the pool never delivers a result
                 self.fs.fire('worker.exit')
